@@ -253,6 +253,9 @@ def run(ck):
     ck.assumptions += ['closeness of roots is an equivalence (clusters); chains a~b~c with a !~ c are not generated',
                        'identities are linear in the control points: unit vectors x >= n+1 parameter values are unisolvent']
     ck.tlc('Bezier', 'Bezier_MC.cfg', need_actions=['Step'])
+    # the degree <= 3 identities over unbounded integers (symbolic), and a perturbed one refuted (non-vacuity)
+    ck.apalache('MC_Ident', 'Inv')
+    ck.apalache('MC_Ident', 'Wrong', expect_error=True)
     ck.tlc('Bezier', 'Bezier_MC_hi.cfg', need_actions=['Step'])
     rm = open(pm.__file__.rsplit('/', 2)[0] + '/spec/Roots_MC.cfg').read()
     ck.tlc('Roots', rm if quick else rm.replace('MaxN = 5', 'MaxN = 6'), need_actions=['Compare', 'Done'], timeout=3000)
